@@ -30,7 +30,8 @@ ASSUMPTIONS = [
 ]
 
 WORDS = ["a", "b", "ab", "a/b", "u", "", "x y", "é", "中", "__env_vars__", "__env_overrides__", "__inp_paths__",
-         "__shell__", "\x01", "\x02", "a\x01b", "A", "0", "cmd  # wd=sub/", "PATH", "HOME", "X"]
+         "__shell__", "\x01", "\x02", "a\x01b", "A", "0", "cmd  # wd=sub/", "PATH", "HOME", "X",
+         "caf\u00e9", "cafe\u0301", "\u212b", "\u00c5", "A\u030a", "\ufb01", "fi", "\u00a0", " ", "\u2126", "\u03a9"]
 
 
 def word(r, nonempty=False) -> str:
@@ -39,7 +40,7 @@ def word(r, nonempty=False) -> str:
         if k < 0.6:
             w = r.choice(WORDS)
         else:
-            w = "".join(r.choice("ab_/é\x01u~") for _ in range(r.randint(0, 4)))
+            w = "".join(r.choice("ab_/é\x01u~e\u0301") for _ in range(r.randint(0, 4)))
         if w or not nonempty:
             return w
 
@@ -259,7 +260,13 @@ def mutate_one(r, c: dict):
         choices += ["move_env_ovr"]
     what = r.choice(choices)
     if what == "label":
-        c2["label"] = c["label"] + r.choice(["x", "  # wd=sub/", " "])
+        c2["label"] = c["label"] + r.choice(["x", "  # wd=sub/", " ", "\u0301", "\u00a0"])
+        if r.random() < 0.3:
+            import unicodedata
+
+            alt = unicodedata.normalize(r.choice(["NFC", "NFD", "NFKC"]), c["label"])
+            if alt != c["label"]:
+                c2["label"] = alt
     elif what == "shell":
         c2["shell"] = not c["shell"]
     elif what in ("digest", "mode", "size", "path", "del_file"):
@@ -430,12 +437,19 @@ async def oracle_refreshed(ctx):
             os.chmod(path, 0o644)
             os.utime(path, (1_000_000.0, 1_000_000.0))
             rec = FileHash.unknown().refreshed(path)
-            kind = r.choice(["content", "content+size", "mode", "delete", "touch-only", "replace"])
+            kind = r.choice(["content", "content+size", "mode", "delete", "touch-only", "replace", "older-mtime",
+                             "older-mtime"])
             if kind == "content":
                 c2 = bytes(b ^ 1 for b in c1)
                 with open(path, "wb") as fh:
                     fh.write(c2)
                 os.utime(path, (1_000_001.0, 1_000_001.0))
+            elif kind == "older-mtime":
+                # rewritten in place (same inode, same size) with an older time stamp, as `cp -p` or
+                # `rsync -t` of an earlier revision does
+                with open(path, "r+b") as fh:
+                    fh.write(bytes(b ^ 4 for b in c1))
+                os.utime(path, (999_999.0, 999_999.0 - r.choice([0.0, 0.000001, 5.0])))
             elif kind == "content+size":
                 with open(path, "ab") as fh:
                     fh.write(b"x")
